@@ -60,6 +60,7 @@ func (r *rig) run(prefix []byte, chunks [][]byte) (after, final state, panicked 
 		}
 	}()
 	r.p.Reset()
+	curRig, curPrefix, curChunks = r, prefix, chunks
 	var evs []ri.Ev
 	if len(prefix) > 0 {
 		evs = append(evs, ri.ConvAll(r.p.Feed(prefix))...)
@@ -73,6 +74,26 @@ func (r *rig) run(prefix []byte, chunks [][]byte) (after, final state, panicked 
 	e, b = r.p.Flags()
 	final = state{evs, string(r.p.Pending()), e, b}
 	return
+}
+
+// the case in progress, for the stall watchdog
+var (
+	curRig    *rig
+	curPrefix []byte
+	curChunks [][]byte
+)
+
+func describeCurrent() (string, string, interface{}) {
+	r := curRig
+	if r == nil {
+		return "setup", "no case in progress", nil
+	}
+	var cs []string
+	for _, c := range curChunks {
+		cs = append(cs, string(c))
+	}
+	return "decode", fmt.Sprintf("%s/%s: decoding %s after %s (collectEventsFromInput does not return)", r.entry, r.cs, chunksDesc(curChunks), q(curPrefix)),
+		map[string]interface{}{"Entry": r.entry, "Charset": r.cs, "Prefix": string(curPrefix), "Chunks": cs}
 }
 
 func q(b []byte) string { return fmt.Sprintf("%q", string(b)) }
@@ -351,6 +372,7 @@ func tokens(e common.Entry, p *tcell.VerifParser) []token {
 
 func main() {
 	w := hc.Start("C02")
+	w.WatchStall(describeCurrent)
 	w.R.Rule = "per terminal description (quick: one per distinct input signature = key table + mouse + clipboard capability; thorough: every entry): (1a) all byte strings over a 27-byte branching alphabet up to length L from the initial parser state, (1b) all strings up to length 9 over a 4-6 byte alphabet, (1c) all strings up to length 2-3 from the state after every proper prefix of every token; each string fed in one read, at every two-chunk split and byte-wise, comparing events, unconsumed bytes and parser flags after the feeds and after the timeout (no byte may remain); (2) all token strings up to length 3 (keys, modified keys, Alt prefix, SGR/X11 mouse, paste brackets, focus, OSC 52 replies with BEL and ST, ASCII, UTF-8, invalid byte, control byte) under the same partitions plus compositionality: events(t1 t2 t3) = events(t1)+events(t2)+events(t3) for self-delimiting tokens. distinct_nontrivial = distinct (entry,start,string) cases producing at least one non-rune event"
 	w.R.Assumptions = []string{"two-chunk splits plus state equality imply all partitions (induction on the number of chunks, DESIGN.md 1.4); byte-wise feeding is an additional direct check", "the synchronous entry is the same collectEventsFromInput code mainLoop calls; timer behaviour itself is covered by C05/C06"}
 
